@@ -209,6 +209,16 @@ def run_perc(case):
     es = [[int(x), int(y)] for x, y in G.edges()]
     snap = lambda: (sorted(G.nodes(data=True), key=lambda z: z[0]), sorted((min(x, y), max(x, y), sorted(d.items())) for x, y, d in G.edges(data=True)))
     before = snap()
+    if case.get("pre_abort") is not None:
+        # crash point: a percolation of this very graph was abandoned part-way (also inside networkx); the input must be as it
+        # was (judged through `input_same` below, whose reference snapshot was taken BEFORE the abandoned call) and the judged
+        # percolation exact
+        from ..crash import abort_frac
+        Gc = G.copy()
+        try:
+            Oracle().run_seeded(7, lambda: abort_frac(lambda: gcmpy.bond_percolate(Gc, 0.5), lambda: gcmpy.bond_percolate(G, 0.5), case["pre_abort"], deep=True))
+        except Exception:
+            pass
     N = G.order()
     a, b = case["a"], case["b"]
     phi = a / b
